@@ -79,6 +79,12 @@ def build_steps(transport, prefix, gap, probe, R=2):
     steps = []
     classes = outcome_classes(transport)
     for name in prefix:
+        if isinstance(name, dict):
+            # free-form earlier request: any fault script of C04's alphabet; the network is drained afterwards so that nothing
+            # it left in flight can answer the probe (only what the LIBRARY kept from it may matter)
+            steps.append({"op": "request", "script": name["script"], "connect": list(name.get("connect", []))})
+            steps.append({"op": "idle"})
+            continue
         if name == "close":
             steps.append({"op": "close"})
         elif name == "newloop":
@@ -132,7 +138,7 @@ def check_history(acc: Acc, case):
     full = dict(case)
     full["steps"] = steps
     if any(p not in ("success", "success_late_in_time") for p in prefix):
-        acc.nontrivial(transport, case.get("keep"), T, R, tuple(prefix), case.get("gap", 0), k, case.get("api", False))
+        acc.nontrivial(transport, case.get("keep"), T, R, repr(prefix), case.get("gap", 0), k, case.get("api", False))
     results, world, errors, protocol = netcase.run_sequence(full)
     fails = []
     probe = results[-1]
@@ -221,13 +227,27 @@ def hyp_job(job):
     from hypothesis import strategies as st
     acc = Acc()
 
+    tick_any = st.one_of(st.integers(0, 15), st.integers(17, 40), st.sampled_from((16, 32)))
+    errn = st.sampled_from(("ECONNREFUSED", "ENETUNREACH", "EHOSTUNREACH"))
+
+    def action(transport):
+        closes = st.tuples(st.just("eof"), tick_any) if transport == "tcp" else st.tuples(st.just("recverr"), tick_any, errn)
+        return st.one_of(
+            st.just(("drop",)), st.tuples(st.just("answer"), tick_any), st.tuples(st.just("garbage"), tick_any),
+            st.tuples(st.just("short"), tick_any), st.tuples(st.just("bad"), tick_any), st.tuples(st.just("exc"), tick_any, st.integers(0, 255)),
+            st.tuples(st.just("frag"), st.integers(1, 30), tick_any, tick_any), st.tuples(st.just("lone"), st.integers(1, 30), tick_any),
+            st.tuples(st.just("dup"), tick_any, tick_any), closes, st.tuples(st.just("senderr"), errn),
+            st.tuples(st.just("frag_then_full"), st.integers(5, 20), tick_any, tick_any)).map(list)
+
     @st.composite
     def cases(draw):
         transport = draw(st.sampled_from(("udp", "aa55", "tcp")))
+        free = st.fixed_dictionaries({"script": st.lists(action(transport), max_size=5),
+                                      "connect": st.lists(st.sampled_from(("ok", "ok", "refused", "unreachable", "gaierror", "timeout") if transport == "tcp" else ("ok", "ok", "ok", "unreachable", "gaierror")), max_size=3)})
         names = list(outcome_classes(transport)) + ["close", "newloop"]
         R = draw(st.integers(0, 5))
         return {"transport": transport, "keep": draw(st.booleans()), "T": draw(st.sampled_from((0.5, 1.0, 2.0, 4.0))),
-                "R": R, "prefix": draw(st.lists(st.sampled_from(names), min_size=1, max_size=8)),
+                "R": R, "prefix": draw(st.lists(st.one_of(st.sampled_from(names), st.sampled_from(names), free), min_size=1, max_size=8)),
                 "gap": draw(st.one_of(st.just(0), st.just("idle"), st.integers(1, 40))),
                 "k": draw(st.one_of(st.none(), st.integers(0, R), st.integers(0, 15).map(lambda d: "slow:%d" % d), st.just("short"),
                                     st.tuples(st.integers(0, 15), st.integers(0, 15)).map(lambda t: "noisy:%d:%d" % (min(t), max(t))),
@@ -236,7 +256,7 @@ def hyp_job(job):
 
     def body(case):
         for p in case["prefix"]:
-            acc.cls("prefix|" + p)
+            acc.cls("prefix|" + (p if isinstance(p, str) else "free-script"))
         if len(acc.samples) < 3:
             acc.sample(case)
         return check_history(acc, case)
